@@ -110,6 +110,15 @@ class GdbSim:
 
     # ------------------------------------------------------------------ gdb callbacks
     def _on_write(self, text, stream):
+        f = self.cfg.get('ctrl_c_in_closed_notice')
+        if f is not None and 'Closed ' in text and 'connection' in text:
+            self.closed_writes = getattr(self, 'closed_writes', 0) + 1
+            if self.closed_writes - 1 == f:
+                # the user's Ctrl-C lands while gdb.write prints the notice: gdb raises KeyboardInterrupt in Python
+                self.rec.add('fault-write', text)
+                self.fault_fired = True
+                self.counters['fault_ctrl_c_in_closed_notice'] = self.counters.get('fault_ctrl_c_in_closed_notice', 0) + 1
+                raise KeyboardInterrupt()
         for line in text.split('\n')[:-1] if text.endswith('\n') else text.split('\n'):
             self.rec.add('out', line)
 
@@ -363,6 +372,8 @@ class GdbSim:
         info['n_extracted_before'] = len(self.extracted)
         info['stop'] = None
         info['exception'] = None
+        info['injected_fault'] = False
+        self.fault_fired = False
         self.rec.add('hit', (spec, thread))
         if bp is None:
             info['exception'] = 'no breakpoint registered on ' + spec
@@ -375,8 +386,12 @@ class GdbSim:
             raise
         except BaseException as e:  # noqa  (real gdb prints the error and stops the inferior)
             import traceback
-            info['exception'] = traceback.format_exc()
-            info['stop'] = True
+            if isinstance(e, KeyboardInterrupt) and getattr(self, 'fault_fired', False):
+                info['injected_fault'] = True      # our own fault coming back out of stop(): expected, gdb halts the program
+                info['stop'] = True
+            else:
+                info['exception'] = traceback.format_exc()
+                info['stop'] = True
             self.rec.add('stop-exception', type(e).__name__)
         info['seq_after'] = self.rec.seq
         info['extracted'] = self.extracted[-1] if len(self.extracted) > info.get('n_extracted_before', 0) else None
